@@ -8,6 +8,7 @@ package main
 import (
 	"crypto"
 	"crypto/sha256"
+	"encoding/json"
 	"errors"
 	"fmt"
 	"io"
@@ -22,6 +23,7 @@ type world struct {
 	bufs map[string][]byte // named byte buffers
 	log  *spyLog
 	mark int
+	vers map[string]cose.Verifier // session mode: one verifier value per description, shared by all cases of the session
 }
 
 func newWorld() *world {
@@ -191,6 +193,19 @@ func (o opaqueSigner) Sign(rand io.Reader, digest []byte, opts crypto.SignerOpts
 }
 
 func (w *world) verifierOf(x any) cose.Verifier {
+	if w.vers == nil {
+		return w.makeVerifier(x)
+	}
+	k, _ := json.Marshal(x)
+	if v, ok := w.vers[string(k)]; ok {
+		return v
+	}
+	v := w.makeVerifier(x)
+	w.vers[string(k)] = v
+	return v
+}
+
+func (w *world) makeVerifier(x any) cose.Verifier {
 	v := x.(map[string]any)
 	alg := cose.Algorithm(num(v["alg"]))
 	name := str(v["name"])
@@ -450,6 +465,8 @@ func (w *world) step(st J) J {
 			default:
 				fatal("verify on %T", o)
 			}
+		case "nilslot":
+			w.objs[name].(*cose.SignMessage).Signatures[num(st["slot"])] = nil
 		case "marshal":
 			var b []byte
 			b, err = marshalObj(w.objs[name])
@@ -764,6 +781,29 @@ func (w *world) step(st J) J {
 }
 
 func init() {
+	// a session: several cases run one after the other in one world that keeps its verifiers (and whatever the library
+	// keeps between calls); objects and buffers are dropped between cases.  Every case yields its own event.
+	execs["memflow-session"] = func(c J) J {
+		w := newWorld()
+		w.vers = map[string]cose.Verifier{}
+		evs := []any{}
+		for _, cc := range c["session"].([]any) {
+			sub := cc.(map[string]any)
+			w.objs, w.bufs = map[string]any{}, map[string][]byte{}
+			steps, _ := sub["steps"].([]any)
+			obs := make([]any, 0, len(steps))
+			for _, s := range steps {
+				obs = append(obs, w.step(s.(map[string]any)))
+			}
+			ev := J{}
+			for k, v := range sub {
+				ev[k] = v
+			}
+			ev["op"], ev["obs"] = "memflow", obs
+			evs = append(evs, ev)
+		}
+		return J{"op": "memflow-session", "events": evs}
+	}
 	execs["memflow"] = func(c J) J {
 		w := newWorld()
 		steps, _ := c["steps"].([]any)
